@@ -246,8 +246,22 @@ def run_impl(cases):
     return rc, res, out
 
 
+def strip_env(ops):
+    """environment ops (-1 sig d: earlier disposition, -2 n: idle threads) do not exist for the model
+    or the property: what the flags do must not depend on them"""
+    return [o for o in ops if o[0] >= 0]
+
+
+def with_env(rnd, fam, ops):
+    sigs = sorted(set(o[1] for o in ops if o[0] in (2, 3, 4, 5, 6, 8)))
+    env = [(-1, s, rnd.choice((1, 2, 3))) for s in sigs if s not in (9, 19) and rnd.random() < 0.7]
+    if rnd.random() < 0.6:
+        env.append((-2, rnd.choice((1, 3))))
+    return (fam + '+env', env + list(ops))
+
+
 def run_model(cases):
-    req = ['run_c15 %d %s' % (NB + NU, ' '.join(str(x) for x in flat(ops))) for _, ops in cases]
+    req = ['run_c15 %d %s' % (NB + NU, ' '.join(str(x) for x in flat(strip_env(ops)))) for _, ops in cases]
     out = common.run_driver('flag', req, timeout=1500)
     return [[int(x) for x in l.split()] if l and not l.startswith('!') else None for l in out]
 
@@ -309,6 +323,12 @@ def run(ctx, only=None):
             cases.append(gen_armdisarm(rnd, term, rnd.randint(2, 60 if thorough else 14)))
         for i in range(n_rnd):
             cases.append(gen_random(rnd, term, rnd.randint(3, 80 if thorough else 22)))
+    if only is None:
+        # the same scripts again in other environments: the signal ignored / handled by a foreign handler
+        # before the first registration, and further threads in the process
+        base = list(cases)
+        cases += [with_env(rnd, fam, ops) for fam, ops in base[:len(fixed_cases(term))]]
+        cases += [with_env(rnd, fam, ops) for fam, ops in rnd.sample(base, min(len(base), 6000 if ctx.tier == 'thorough' else 500))]
     rc, impl, raw = run_impl(cases)
     if rc != 0 or len(impl) != len(cases):
         ctx.correspondence('c15 probes ran', False, raw[-1500:])
@@ -329,20 +349,23 @@ def run(ctx, only=None):
             ctx.traces += 1
             if model[i] != im:
                 bad_model.append({'ops': ops, 'impl': im, 'model': model[i]})
-        ex = expected(NB, NU, ops)
+        ex = expected(NB, NU, strip_env(ops))
         if ex != im and n_viol < 5:
             n_viol += 1
 
             def still_fails(cands):
                 cs = [('s', c) for c in cands]
                 rc2, r2, _ = run_impl(cs)
-                return [r2.get(j) is not None and r2.get(j) != expected(NB, NU, c) for j, (_, c) in enumerate(cs)]
+                return [r2.get(j) is not None and r2.get(j) != expected(NB, NU, strip_env(c)) for j, (_, c) in enumerate(cs)]
             small = shrink(ops, still_fails) if only is None else ops
             rc3, r3, _ = run_impl([('s', small)])
-            im_s, ex_s = r3.get(0, im), expected(NB, NU, small)
+            im_s, ex_s = r3.get(0, im), expected(NB, NU, strip_env(small))
             if im_s == ex_s:
                 small, im_s, ex_s = ops, im, ex
-            clause = clause_of(NB, NU, small, im_s, ex_s)
+            clause = clause_of(NB, NU, strip_env(small), im_s, ex_s)
+            envtxt = ''.join(' [signal %d was %s before]' % (o[1], {1: 'ignored', 2: 'handled by a foreign handler', 3: 'handled by a foreign SA_RESETHAND handler'}[o[2]]) if o[0] == -1
+                             else ' [%d extra threads]' % o[1] for o in small if o[0] < 0)
+            clause = clause + envtxt
             ctx.violation({'clause': clause, 'ops': flat(small)},
                           'C15 %s: script %s on the real crates gives log %s, the property dictates %s' % (clause, small, im_s, ex_s),
                           {'nb': NB, 'nu': NU, 'ops': [list(o) for o in small], 'impl': im_s, 'property': ex_s,
